@@ -185,6 +185,8 @@ func (e *Engine) intrinsic(fr *frame, name string, args []value) (value, bool) {
 		e.budget = asInt64(args[0])
 		e.budgetBase = e.instrs
 		return nil, true
+	case "vMeasureAlloc":
+		return e.measureAlloc(fr, args[0]), true
 	case "vMaxAlloc":
 		return int(e.maxAlloc), true
 	case "vResetAlloc":
@@ -210,4 +212,30 @@ func (e *Engine) noPanic(fr *frame, f value) (ok value) {
 		call(fr.i, fr, 0, f, nil)
 	}()
 	return ok
+}
+
+// measureAlloc runs the closure f and returns the size (elements) of the
+// largest single slice allocation it made. An allocation too large to
+// materialise ends f there and its (possibly symbolic) size is returned.
+func (e *Engine) measureAlloc(fr *frame, f value) (n value) {
+	save, saveM := e.maxAlloc, e.measuring
+	e.maxAlloc, e.measuring = 0, true
+	defer func() { e.measuring = saveM }()
+	func() {
+		defer func() {
+			if r := recover(); r != nil {
+				if c, ok := r.(allocCut); ok {
+					n = c.size
+					return
+				}
+				panic(r)
+			}
+		}()
+		call(fr.i, fr, 0, f, nil)
+		n = int(e.maxAlloc)
+	}()
+	if save > e.maxAlloc {
+		e.maxAlloc = save
+	}
+	return n
 }
